@@ -33,7 +33,7 @@ func newHelpers(P *Program, baseline map[string]bool) map[*FuncInfo]bool {
 		if baseline[fi.Name] {
 			continue
 		}
-		if rec.isRecursive(fi.SSA) {
+		if rec.isRecursiveAmongNew(fi.SSA) {
 			continue // never walked through: it has to satisfy the rules as a function of its own
 		}
 		if ast.IsExported(fi.Obj.Name()) {
